@@ -150,3 +150,21 @@ Proof. exact xml_sanitize_id. Qed.
 
 Theorem xml_sanitize_same_length : forall s, length (xml_sanitize s) = length s.
 Proof. exact xml_sanitize_length. Qed.
+
+(* Documents with SEVERAL insertion points (capabilities documents: the escaped host URL of the request occurs in
+   many attribute values and text nodes).  Whatever the fixed segments are and wherever the insertion points lie
+   (text, inside a tag, inside a quoted attribute), two values that are free of < > and both quote characters give
+   token lists of the same length and the same kinds: request-derived text cannot create, end or merge tokens. *)
+Theorem insertions_keep_structure :
+  forall segs u v, markup_free u -> markup_free v ->
+    shape (tokenize (fill segs u)) = shape (tokenize (fill segs v)).
+Proof. exact tokenize_fill_shape. Qed.
+
+(* Instance for what Request.base_url inserts (escape_html of the host URL): the structure of a capabilities
+   document does not depend on Host / X-Forwarded-Host / X-Forwarded-Proto.  That the real documents ARE
+   `fill segs (escape_html host_url)` for request-independent segs is the correspondence `capabilities` of the
+   harness (validated, the capabilities templates themselves are not translated). *)
+Theorem capabilities_structure_independent_of_host :
+  forall segs h1 h2,
+    shape (tokenize (fill segs (escape_html h1))) = shape (tokenize (fill segs (escape_html h2))).
+Proof. exact fill_escape_html_shape. Qed.
